@@ -158,6 +158,10 @@ class Builder:
                 ety = T.strip_opt(ty).a[0] if ty is not None and T.strip_opt(ty).k == "list" and T.strip_opt(ty).a else None
                 for x in v["$list"]:
                     out.append(self.build(x, ety))
+                n_ = v.get("$len", len(out))
+                if "$tail" in v and len(out) < n_ <= 100000:
+                    out.extend([out[-1] if out else None] * (n_ - len(out) - 2))
+                    out.extend(self.build(x, ety) for x in v["$tail"])
                 return out
             if "$dict" in v:
                 out = {}
@@ -259,6 +263,9 @@ class NativeSpec:
         self.roots = roots
         self.old_mode = 0
         self.reachable_all_pre = []
+
+    def _is_twin(self, now, then):
+        return self.memo.get(id(now)) is then
 
     def memo_originals(self):
         return [o for o in self.reachable_all_pre]
@@ -397,6 +404,19 @@ class NativeSpec:
                 return bool(self.ev(n.args[0], env)) == bool(self.ev(n.args[1], env))
             if nm == "ite":
                 return self.ev(n.args[1], env) if self.ev(n.args[0], env) else self.ev(n.args[2], env)
+            if nm in ("dict_key", "dict_val"):
+                d = self.ev(n.args[0], env)
+                j = self.ev(n.args[1], env)
+                return list(d.keys())[j] if nm == "dict_key" else list(d.values())[j]
+            if nm in ("same_dict", "same_dict_except"):
+                d = self.ev(n.args[0], env)
+                was = self.memo.get(id(d), d)
+                if nm == "same_dict":
+                    return list(d.items()) == list(was.items()) and all(a is b or a == b for a, b in zip(d.values(), was.values()))
+                k = self.ev(n.args[1], env)
+                keys = (set(d) | set(was)) - {k}
+                return all((x in d) == (x in was) and (x not in d or self.memo.get(id(was[x]), None) is d[x] or was[x] is d[x] or
+                                                       self._is_twin(d[x], was[x])) for x in keys)
             if nm == "fresh":
                 v = self.ev(n.args[0], env)
                 return not any(v is t for t in self.memo_originals())
